@@ -29,7 +29,9 @@ var hookCalls = []string{"send", "reopen", "rmpipenodes", "rmnode-unused", "rmpi
 	// early-return / error paths of every call: none may leave the lock held
 	"getthr-unknown", "getthrs", "getthrs-unknown", "isany-unknown", "send-unknown", "rmpipe-unknown", "rmpipe-empty", "rmpipenodes-unknown",
 	"rmpipenodes-unknownpid", "rmpipenodes-empty", "rmnode-unknown", "rmnode-inuse", "rmnode-empty", "regnode-denied", "regnode-empty", "regnode-badpolicy",
-	"regpipe-invalid", "regpipe-denied", "regpipe-unknown-node", "regpipe-empty", "setthr-negative", "setthrs", "setthrs-negative", "setthr-empty", "reopen-failing"}
+	"regpipe-invalid", "regpipe-denied", "regpipe-unknown-node", "regpipe-empty", "setthr-negative", "setthrs", "setthrs-negative", "setthr-empty", "reopen-failing",
+	// closing wrapped nodes (NodeUnwrapper), also one whose Unwrap returns nil
+	"rmnode-wrapper", "rmnode-wrapper-nil", "rmpipenodes-wrapper-nil"}
 var gatedCalls = []string{"send-expiring", "send-flush", "rmpipenodes", "rmpipe+rmnode", "reopen"}
 
 func scenarios(tier string) []scenario {
@@ -246,6 +248,19 @@ func body(sc scenario) func() string {
 			ret = fmt.Sprint(b.SetSuccessThresholdSinks("t1", -1) != nil)
 		case "setthr-empty":
 			ret = fmt.Sprint(b.SetSuccessThreshold("", 1) != nil)
+		case "rmnode-wrapper", "rmnode-wrapper-nil":
+			w := hn.Wrapper{Node: hn.NewNode(log, "w", el.NodeTypeSink, hn.Drop, nil)}
+			if sc.Call == "rmnode-wrapper" {
+				w.Inner = hn.NewNode(log, "inner", el.NodeTypeSink, hn.Drop, nil).AsNode()
+			}
+			must(b.RegisterNode("w", w), "wrapper")
+			ret = fmt.Sprint(b.RemoveNode(ctx, "w") != nil)
+		case "rmpipenodes-wrapper-nil":
+			w := hn.Wrapper{Node: hn.NewNode(log, "w", el.NodeTypeSink, hn.Drop, nil)}
+			must(b.RegisterNode("w", w), "wrapper")
+			must(b.RegisterPipeline(el.Pipeline{PipelineID: "pw", EventType: "t3", NodeIDs: []el.NodeID{"m", "w"}}), "pw")
+			ok, err := b.RemovePipelineAndNodes(ctx, "t3", "pw")
+			ret = fmt.Sprint(ok, err != nil)
 		case "reopen-failing":
 			m2.ReopenErr = fmt.Errorf("reopen fails")
 			ret = fmt.Sprint(b.Reopen(ctx) != nil)
